@@ -7,6 +7,7 @@
 From Coq Require Import ZArith List Bool Permutation.
 From RP Require Import Gen.StatesTables Pipeline.Model Pipeline.Stage Pipeline.Oracle Pipeline.Proofs Pipeline.StageProofs.
 From RP Require Exec.Model Exec.Oracle Exec.CancelProofs Exec.ReleaseProofs.
+From RP Require Relay.Model Relay.Oracle Relay.Proofs Relay.History Relay.OracleProofs.
 Import ListNotations.
 Open Scope Z_scope.
 
@@ -230,3 +231,132 @@ Theorem C05_executor_one_truthful_handover :
 Proof. exact one_truthful_handover. Qed.
 Print Assumptions C05_executor_one_truthful_handover.
 End ExecSide.
+
+(* ---- raptor relay of the agent scheduler: tasks with a raptor_id are not
+   scheduled but forwarded to raptor masters, or kept in a backlog until a
+   master registers (station CASched of the pipeline model handles them as any
+   other task; this is what really happens to them) ----
+   RP.Relay.Model: work / _schedule_incoming / control_cb(register_raptor_queue,
+   unregister_raptor_queue, cancel_tasks) as a state machine over the scheduler
+   queue, the registered queues and the backlog.  All statements are about
+   EVERY history of operations. *)
+Module RelaySide.
+Import RP.Relay.Model RP.Relay.Oracle RP.Relay.Proofs RP.Relay.History RP.Relay.OracleProofs.
+Open Scope Z_scope.
+
+(* handed on exactly once: at every moment the raptor tasks called u that have
+   arrived are, with multiplicity, on the scheduler queue, in a backlog,
+   forwarded, failed or canceled -- none lost, none doubled *)
+Theorem C05_relay_conservation :
+  forall ops u s e, run init ops = (s, e) ->
+    n_arr u ops = (n_inq u s + tot u (backlog s) + n_fwd u e + n_fail u e + n_cancel u e)%nat.
+Proof. exact conservation. Qed.
+Print Assumptions C05_relay_conservation.
+
+(* for a uid that arrived once: exactly one of the five counts is 1, the others are 0 *)
+Theorem C05_relay_exactly_one_place :
+  forall ops u s e, run init ops = (s, e) -> n_arr u ops = 1%nat ->
+    exists a b, [n_inq u s; tot u (backlog s); n_fwd u e; n_fail u e; n_cancel u e] = a ++ 1%nat :: b
+                /\ Forall (fun x => x = 0%nat) (a ++ b).
+Proof. exact exactly_one_place. Qed.
+Print Assumptions C05_relay_exactly_one_place.
+
+(* never forwarded more often than it arrived: at most once, to one queue *)
+Theorem C05_relay_never_forwarded_twice :
+  forall ops u s e, run init ops = (s, e) -> (n_fwd u e <= n_arr u ops)%nat.
+Proof. exact never_forwarded_twice. Qed.
+Print Assumptions C05_relay_never_forwarded_twice.
+
+(* one final state: a task that was failed or canceled has not been forwarded
+   and is not forwarded, failed or canceled again in any continuation *)
+Theorem C05_relay_no_forward_after_final :
+  forall ops1 ops2 u s1 e1 s2 e2,
+    run init ops1 = (s1, e1) -> run s1 ops2 = (s2, e2) ->
+    (n_arr u (ops1 ++ ops2) <= 1)%nat -> (0 < n_fail u e1 + n_cancel u e1)%nat ->
+    n_fwd u (e1 ++ e2) = 0%nat /\ (n_fail u (e1 ++ e2) + n_cancel u (e1 ++ e2) = 1)%nat.
+Proof. exact no_forward_after_final. Qed.
+Print Assumptions C05_relay_no_forward_after_final.
+
+(* in every reachable state the keys of both dicts are unique, a registered
+   name has no backlog, and no wildcard backlog exists while a queue is
+   registered: nobody waits for a master that is there *)
+Theorem C05_relay_nobody_waits_for_a_registered_master :
+  forall ops s e, run init ops = (s, e) ->
+    NoDup (map fst (backlog s)) /\ NoDup (map fst (queues s)) /\
+    (forall n, alook n (queues s) <> None -> alook n (backlog s) = None) /\
+    (queues s <> [] -> alook star (backlog s) = None).
+Proof. exact reachable_spec. Qed.
+Print Assumptions C05_relay_nobody_waits_for_a_registered_master.
+
+(* Register: the complete backlog of the name, then that of the wildcard, go
+   to the new queue; nothing of them is left behind; the rest is untouched *)
+Theorem C05_relay_register_relays_all :
+  forall ops s0 e0 n q, run init ops = (s0, e0) ->
+    let '(s', e) := step s0 (Register n q) in
+    e = (match alook n (backlog s0) with Some l => [OPut q l] | None => [] end)
+        ++ (if n =? star then [] else match alook star (backlog s0) with Some l => [OPut q l] | None => [] end)
+    /\ backlog s' = without [n; star] (backlog s0)
+    /\ alook n (backlog s') = None /\ alook star (backlog s') = None
+    /\ (forall k, k <> n -> k <> star -> alook k (backlog s') = alook k (backlog s0))
+    /\ inq s' = inq s0 /\ alook n (queues s') = Some q.
+Proof. exact register_relays_all_hist. Qed.
+Print Assumptions C05_relay_register_relays_all.
+
+(* Unregister: exactly the backlog of that name fails (FAILED, 'raptor gone'),
+   in order; name and backlog are forgotten; an unknown name adds a warning *)
+Theorem C05_relay_unregister_fails_exactly :
+  forall ops s0 e0 n, run init ops = (s0, e0) ->
+    let '(s', e) := step s0 (Unregister n) in
+    e = (match alook n (queues s0) with None => [OWarn n] | Some _ => [] end) ++ map OFail (key_list n (backlog s0))
+    /\ backlog s' = without [n] (backlog s0) /\ queues s' = without [n] (queues s0)
+    /\ alook n (backlog s') = None /\ alook n (queues s') = None
+    /\ (forall k, k <> n -> alook k (backlog s') = alook k (backlog s0))
+    /\ inq s' = inq s0.
+Proof. exact unregister_fails_exactly_hist. Qed.
+Print Assumptions C05_relay_unregister_fails_exactly.
+
+(* "reaches a final state while its pilot is alive" is FALSE for a task that
+   arrives for a master after that master unregistered: it is kept in a new
+   backlog (witness: master 1 registers and unregisters, task 7 for master 1
+   arrives and is drained) ... *)
+Theorem C05_relay_gone_master_backlog_refuted :
+  exists ops n u s e,
+    run init ops = (s, e) /\ gone n ops false = true /\ In u (key_list n (backlog s)) /\ n_arr u ops = 1%nat.
+Proof. exact gone_master_backlog_refuted. Qed.
+Print Assumptions C05_relay_gone_master_backlog_refuted.
+
+(* ... and it stays there whatever else arrives, is drained, registers or
+   unregisters, until that very name registers or unregisters again or a
+   request names the task *)
+Theorem C05_relay_waits_until_registered_again :
+  forall ops s s' e n l,
+    run s ops = (s', e) -> forallb (leaves_alone n) ops = true -> n <> star ->
+    alook n (backlog s) = Some l -> exists l', alook n (backlog s') = Some (l ++ l').
+Proof. exact waits_until_registered_again. Qed.
+Print Assumptions C05_relay_waits_until_registered_again.
+
+(* what holds of it: right after the unregistration nothing waits for the name *)
+Theorem C05_relay_gone_master_partial :
+  forall ops n s e, run init (ops ++ [Unregister n]) = (s, e) ->
+    alook n (backlog s) = None /\ alook n (queues s) = None.
+Proof. exact unregistered_has_no_backlog. Qed.
+Print Assumptions C05_relay_gone_master_partial.
+
+(* the clauses evaluated on the traces of the real code hold of the model's
+   trace of every history *)
+Theorem C05_relay_clauses_hold_in_model :
+  forall ops, forallb (fun b => b) (relay_row ops (trace init ops)) = true.
+Proof. exact clauses_hold_in_model. Qed.
+Print Assumptions C05_relay_clauses_hold_in_model.
+
+(* non-vacuity: wildcard tasks wait, the first master gets them, a second
+   master and a re-registration get nothing; a named task for a master that
+   never comes waits; seen tasks and workers are scheduled here *)
+Example C05_relay_nonvacuous :
+  let t u n := mkT u (Some n) false false in
+  run init [Arrive [t 1 0; t 2 0; t 3 5; mkT 4 (Some 1) true false; mkT 5 (Some 1) false true]; Drain;
+            Register 1 1; Register 2 2; Register 1 3; Arrive [t 6 0; t 7 0; t 8 0]; Drain; Unregister 5]
+  = (mkS [] [(1, 3); (2, 2)] [],
+     [OSched [4; 5]; OPut 1 [1; 2]; OPut1 3 6; OPut1 2 7; OPut1 3 8; OWarn 5; OFail 3]).
+Proof. vm_compute. reflexivity. Qed.
+End RelaySide.
